@@ -1038,6 +1038,36 @@ pub fn c17(ctx: &Ctx, rep: &mut Report) {
         }
         ctx.begin(idx);
         let mut rng = Rng::derive(&[ctx.seed, ctx.shard, idx, 17]);
+        if idx % 200 == 7 && !ctx.miri {
+            // an invalid separator on a line beyond 2^16 / 2^32 of a virtual file, reached with seek()
+            rep.evaluations += 1;
+            match guarded(|| crate::m_hist::huge_line_error_case(&mut rng)) {
+                Err(c) => caught_violation(rep, &c, "reading a virtual file", ctx.replay_json(idx)),
+                Ok(Err(m)) => rep.violation("huge-line-case", m, ctx.replay_json(idx)),
+                Ok(Ok((defect, e))) => {
+                    let want = RErr::InvalidSep {
+                        line: defect * 4 + 3,
+                        found: b'-',
+                        id: format!("{:016}", defect).into_bytes(),
+                    };
+                    rep.count("errors_checked_beyond_line_65536");
+                    if !err_matches(&e.obs, &want, true) {
+                        rep.violation(
+                            "fastq-error-fields-huge-line",
+                            format!("reported {:?}, the true error is {:?}", e.obs, want),
+                            ctx.replay_json(idx),
+                        );
+                    } else if let Err(m) = check_message(&e) {
+                        rep.violation("message-text", m, ctx.replay_json(idx));
+                    }
+                }
+            }
+            if ctx.only.is_some() {
+                break;
+            }
+            idx += 1;
+            continue;
+        }
         let fmt = if idx % 3 == 0 { Fmt::Fasta } else { Fmt::Fastq };
         let opts = GenOpts {
             max_recs: if ctx.miri { 4 } else { 30 },
